@@ -52,7 +52,19 @@ func ScanPngHeader(r io.ReadSeeker) (header meta.ExifHeader, err error) {
 		case "eXIf":
 			offset, _ := r.Seek(0, io.SeekCurrent)
 
-			return meta.NewExifHeader(utils.BigEndian, 8, uint32(offset), length, imagetype.ImagePNG), nil
+			// The chunk data is a TIFF block: its header says which byte
+			// order is used and where the first directory starts.
+			byteOrder, firstIfdOffset := utils.BigEndian, uint32(8)
+			if n, _ = io.ReadFull(r, buf); n == len(buf) {
+				if bo := utils.BinaryOrder(buf); bo != utils.UnknownEndian {
+					byteOrder, firstIfdOffset = bo, bo.Uint32(buf[4:8])
+				}
+			}
+			if _, err = r.Seek(offset, io.SeekStart); err != nil {
+				return header, err
+			}
+
+			return meta.NewExifHeader(byteOrder, firstIfdOffset, uint32(offset), length, imagetype.ImagePNG), nil
 
 		default:
 			// Discard the chunk length + CRC.
